@@ -87,7 +87,12 @@ What the seeded changes made me strengthen (each was a miss or an "undecided" be
   verdict triple of one middleware (and 192 pairs), seven reducer chains; the `loop` suite is now also run for C11/C12.
 * **C05-4 = C03-4 (Effect::Action dispatched inline; C11-1 again)**: witness scenario `effectaction` (queue full, a
   producer waiting, the reducer emits Effect::Action: the store must keep draining); stop clauses tagged C11 (C11-5).
-* One change of this wave was *not* kept: dropping `need_dispatch = true` from the Dispatch arm of `do_reduce` only
+* **C06-5 (blocking recv in the DropOldest arm), C04-5 (Store::stop forwards to close)**: both were rejected by Verus for a
+  missing ghost argument only; `recv` (declared a blocking call) and `close` were added to the callees of `send` and of the
+  trait method, and Verus now decides them.
+* Not kept from the last wave: evaluating the selector under the `last_value` lock (a panicking selector then poisons the
+  lock) — callbacks that panic are outside the statement of C16, the check holds on it.
+* One change of wave 7 was *not* kept: dropping `need_dispatch = true` from the Dispatch arm of `do_reduce` only
   changes chains that mix Keep and Dispatch, which the quantifier of C03 leaves unspecified; the checks hold on it by
   design (`flags_ok` pins the decision for unanimous chains only).
 * **C18-5 (error_occurred booked when an open store's channel refuses an action)**: the counter part of
